@@ -270,6 +270,21 @@ def goTypeName : Json → Text
   | .obj _ => t!"map[string]interface {}"
   | .null => t!"<nil>"
 
+/-- `paramsMap["arguments"]` of `handleCallTool`: absent or `null` — nil map; an object; anything else is refused -/
+def toolArguments (m : Obj) : Except Ans (Option Obj) :=
+  match lookup m t!"arguments" with
+  | none => .ok none
+  | some .null => .ok none
+  | some (.obj a) => .ok (some a)
+  | some v => .error (.error codeInvalidParams (t!"invalid parameters: arguments must be an object, got " ++ goTypeName v))
+
+/-- calling the tool handler and wrapping what it returns -/
+def runTool (tool : ToolEntry) (a : Option Obj) : Ans :=
+  match tool.run a with
+  | .result r => .result (encodeResult r)
+  | .goErr msg => .error codeInternal (serverErrorMessage (.tool tool.desc.name) msg)
+  | .unencodable => .unencodable
+
 /-- manager_tools.go `handleCallTool` -/
 def handleCallTool (reg : Registry) (req : Req) : Ans :=
   match req.params with
@@ -285,26 +300,21 @@ def handleCallTool (reg : Registry) (req : Req) : Ans :=
         match findTool reg.tools name with
         | none => .error codeMethodNotFound (t!"tool not found: " ++ name)
         | some tool =>
-          let args : Except Ans (Option Obj) :=
-            match lookup m t!"arguments" with
-            | none => .ok none
-            | some .null => .ok none
-            | some (.obj a) => .ok (some a)
-            | some v => .error (.error codeInvalidParams
-                (t!"invalid parameters: arguments must be an object, got " ++ goTypeName v))
-          match args with
+          match toolArguments m with
           | .error e => e
-          | .ok a =>
-            match tool.run a with
-            | .result r => .result (encodeResult r)
-            | .goErr msg => .error codeInternal (serverErrorMessage (.tool tool.desc.name) msg)
-            | .unencodable => .unencodable
+          | .ok a => runTool tool a
 
 /-- the loop of `handleGetPrompt` that keeps the string-valued arguments -/
 def stringArgs : Obj → List (Text × Text)
   | [] => []
   | (k, .str s) :: rest => (k, s) :: stringArgs rest
   | _ :: rest => stringArgs rest
+
+def runPrompt (p : PromptEntry) (args : List (Text × Text)) : Ans :=
+  match p.run args with
+  | .result r => .result (encodeGetPrompt r)
+  | .goErr msg => .error codeInternal msg
+  | .unencodable => .unencodable
 
 /-- manager_prompt.go `parseGetPromptParams` + `handleGetPrompt` (prompts registered with a handler) -/
 def handleGetPrompt (reg : Registry) (req : Req) : Ans :=
@@ -314,14 +324,14 @@ def handleGetPrompt (reg : Registry) (req : Req) : Ans :=
     match lookupStr? m t!"name" with
     | none => .error codeInvalidParams msgMissingParams
     | some name =>
-      let arguments : Obj := (extractMap m t!"arguments").getD []
       match findPrompt reg.prompts name with
       | none => .error codeMethodNotFound (t!"prompt not found: " ++ name)
-      | some p =>
-        match p.run (stringArgs arguments) with
-        | .result r => .result (encodeGetPrompt r)
-        | .goErr msg => .error codeInternal msg
-        | .unencodable => .unencodable
+      | some p => runPrompt p (stringArgs ((extractMap m t!"arguments").getD []))
+
+def runResource (r : ResEntry) (a : Option Obj) : Ans :=
+  match r.run a with
+  | .contents cs => .result (encodeReadResource cs)
+  | .goErr msg => .error codeInternal msg
 
 /-- manager_resource.go `handleReadResource` -/
 def handleReadResource (reg : Registry) (req : Req) : Ans :=
@@ -333,10 +343,7 @@ def handleReadResource (reg : Registry) (req : Req) : Ans :=
     | some uri =>
       match findResource reg.resources uri with
       | none => .error codeMethodNotFound (t!"resource not found: " ++ uri)
-      | some r =>
-        match r.run (extractMap m t!"arguments") with
-        | .contents cs => .result (encodeReadResource cs)
-        | .goErr msg => .error codeInternal msg
+      | some r => runResource r (extractMap m t!"arguments")
 
 /-- placeholder the harness substitutes for the wall-clock text of `handleSubscribe` / `handleUnsubscribe` -/
 def timeMark : Text := t!"<time>"
